@@ -639,7 +639,93 @@ func checkConflictClassParity(c *Ctx, rule string) {
 var sentinelNames = []string{"ErrQueueFull", "ErrMemoryPressure", "ErrEnvelopeExists", "ErrLeaseNotFound", "ErrLeaseExpired"}
 
 // sentinelsOf: sentinel error globals loaded in functions reachable from root within the same backend.
+// sentinelsOf: the sentinel errors an operation can hand to its caller — sentinel loads that flow into an error
+// result of the operation (through merges, result cells, %w-wrapping and the error results of the package functions
+// it calls). A sentinel a helper reports and the operation consumes (errors.Is → a per-item conflict) is not one.
 func sentinelsOf(p *Program, root *ssa.Function) []string {
+	found := map[string]bool{}
+	p.returnedSentinels(p.Orig(root), found, map[*ssa.Function]bool{})
+	var out []string
+	for s := range found {
+		out = append(out, s)
+	}
+	sort.Strings(out)
+	return out
+}
+
+func (p *Program) returnedSentinels(fn *ssa.Function, found map[string]bool, busy map[*ssa.Function]bool) {
+	if fn == nil || busy[fn] || len(fn.Blocks) == 0 {
+		return
+	}
+	busy[fn] = true
+	v := p.View(fn)
+	seen := map[ssa.Value]bool{}
+	var trace func(x ssa.Value)
+	trace = func(x ssa.Value) {
+		if x == nil || seen[x] {
+			return
+		}
+		seen[x] = true
+		switch y := x.(type) {
+		case *ssa.Phi:
+			for _, e := range y.Edges {
+				trace(e)
+			}
+		case *ssa.MakeInterface:
+			trace(y.X)
+		case *ssa.ChangeInterface:
+			trace(y.X)
+		case *ssa.ChangeType:
+			trace(y.X)
+		case *ssa.UnOp:
+			if y.Op != token.MUL {
+				return
+			}
+			switch a := y.X.(type) {
+			case *ssa.Global:
+				for _, sn := range sentinelNames {
+					if a.Name() == sn && a.Pkg != nil && a.Pkg.Pkg.Path() == queuePath {
+						found[sn] = true
+					}
+				}
+			case *ssa.Alloc:
+				for _, ref := range *a.Referrers() {
+					if st, ok := ref.(*ssa.Store); ok && st.Addr == a {
+						trace(st.Val)
+					}
+				}
+			}
+		case *ssa.Extract:
+			if call, ok := y.Tuple.(*ssa.Call); ok {
+				if f := call.Call.StaticCallee(); f != nil && IsModuleFunc(f) {
+					p.returnedSentinels(p.Orig(f), found, busy)
+				}
+			}
+		case *ssa.Call:
+			if calleeIs(y, "fmt", "", "Errorf") {
+				if elems, ok := errorfElems(y); ok {
+					for _, e := range elems {
+						trace(e)
+					}
+				}
+				return
+			}
+			if f := y.Call.StaticCallee(); f != nil && IsModuleFunc(f) {
+				p.returnedSentinels(p.Orig(f), found, busy)
+			}
+		}
+	}
+	for _, r := range returnsOf(v) {
+		for _, res := range r.Results {
+			if isErrorT(res.Type()) {
+				trace(res)
+			}
+		}
+	}
+	delete(busy, fn)
+}
+
+func sentinelsOfLoose(p *Program, root *ssa.Function) []string {
 	found := map[string]bool{}
 	for fn := range p.Reach(root) {
 		if fn.Pkg == nil || fn.Pkg.Pkg.Path() != queuePath {
